@@ -213,6 +213,20 @@ def run(rep):
         a = spa[-1].val[2][1:]
         okpa = len(a) == 5 and pq.same(a[0], "grid") and all(pq.same(x, P_(w)) for x, w in zip(a[1:], (R0, R1, C0, C1)))
     rep.check(okpa, "R16.b", "gis/grid.py", "Catchment.intersect", "parent bookkeeping records the same row/column bounds", "", line=f.lineno)
+    # the weights reach the returned grid unclipped: the Grid.data setter clips to finite mindata / maxdata
+    bounded = []
+    for p_ in rets:
+        for e in p_.effects:
+            if e.kind == 'attr' and e.target.split(".")[-1] in ("mindata", "maxdata", "_mindata", "_maxdata") and e.val is not None and \
+                    not pq.mentions(e.val, lambda x: x in (('sym', 'np.inf'), ('sym', 'inf')) or pq.call_named(x, "inf")) and e.val != ('sym', 'None'):
+                bounded.append(f"{e.target} = {show(e.val)[:30]} (line {e.line})")
+        for x in pq.find(('tuple', tuple(v for v in p_.env.values() if isinstance(v, tuple))), lambda y: pq.call_named(y, "f:Grid")):
+            for kw_ in ("mindata", "maxdata"):
+                v_ = pq.kw_of(x, kw_)
+                if v_ is not None and v_ != ('sym', 'None') and not pq.mentions(v_, lambda z: z in (('sym', 'np.inf'), ('sym', 'inf'))):
+                    bounded.append(f"Grid(.., {kw_}={show(v_)[:30]})")
+    rep.check(not bounded, "R16.b", "gis/grid.py", "Catchment.intersect", "the weight grid has no finite data bounds (the data setter would clip the weights)",
+              "; ".join(sorted(set(bounded))[:3]), line=f.lineno)
 
     # ---------------- voronoi ---------------------------------------------------------------------------------------------------
     vtop = body_stmts(fv["body"])
